@@ -142,4 +142,40 @@ func genC36(g *gen) {
 		xorMod = strings.Contains(s, "b^XORKey[i%keyLen]") && strings.Contains(s, "keyLen:=len(XORKey)")
 	}
 	g.line("Definition gen_xor_indexes_key_mod_len : bool := %s.", coqBool(xorMod))
+
+	// Source and destination may be one file: the complete source is in memory
+	// before the destination is opened (and truncated), in both writers.
+	// Extracted: the source-order positions of "whole source read" and of the
+	// first call that can truncate the destination, and what is written.
+	firstCall := func(fd *ast.FuncDecl, match func(fun string, call *ast.CallExpr) bool) token.Pos {
+		pos := token.NoPos
+		if fd == nil || fd.Body == nil {
+			return pos
+		}
+		ast.Inspect(fd.Body, func(n ast.Node) bool {
+			if call, ok := n.(*ast.CallExpr); ok && pos == token.NoPos && match(strings.ReplaceAll(src(call.Fun), " ", ""), call) {
+				pos = call.Pos()
+			}
+			return true
+		})
+		return pos
+	}
+	hasCall := func(fd *ast.FuncDecl, name string) bool {
+		return firstCall(fd, func(fun string, _ *ast.CallExpr) bool { return fun == name }) != token.NoPos
+	}
+	ac := findFunc(f, "", "AppendConfig")
+	readAll := firstCall(ac, func(fun string, c *ast.CallExpr) bool { return fun == "os.ReadFile" && len(c.Args) == 1 && src(c.Args[0]) == "srcBinary" })
+	openDst := firstCall(ac, func(fun string, c *ast.CallExpr) bool {
+		return (fun == "os.OpenFile" || fun == "os.Create" || fun == "os.WriteFile") && len(c.Args) >= 1 && src(c.Args[0]) == "dstBinary"
+	})
+	g.line("(* AppendConfig: os.ReadFile(srcBinary) comes before the destination is opened; the source is not streamed *)")
+	g.line("Definition gen_append_reads_source_before_opening_dst : bool := %s.", coqBool(readAll != token.NoPos && openDst != token.NoPos && readAll < openDst))
+	g.line("Definition gen_append_streams_source : bool := %s.", coqBool(hasCall(ac, "io.Copy") || hasCall(ac, "os.Open") || hasCall(ac, "io.CopyN")))
+	cp := findFunc(f, "", "CopyBinaryWithoutConfig")
+	readOrig := firstCall(cp, func(fun string, _ *ast.CallExpr) bool { return fun == "io.ReadFull" || fun == "os.ReadFile" })
+	writeDst := firstCall(cp, func(fun string, c *ast.CallExpr) bool {
+		return (fun == "os.WriteFile" || fun == "os.OpenFile" || fun == "os.Create") && len(c.Args) >= 1 && src(c.Args[0]) == "dstPath"
+	})
+	g.line("Definition gen_strip_reads_original_before_writing_dst : bool := %s.", coqBool(readOrig != token.NoPos && writeDst != token.NoPos && readOrig < writeDst))
+	g.line("Definition gen_strip_streams_source : bool := %s.", coqBool(hasCall(cp, "io.Copy") || hasCall(cp, "io.CopyN")))
 }
